@@ -89,10 +89,18 @@ def has_tab_indent(src: str) -> bool:
 
 
 def has_noniterable_for(src: str) -> bool:
-    """a for loop / comprehension over a literal that is not iterable, or any constant iterable is_blocking evaluates"""
+    """a for loop / comprehension over a pure literal expression that is not a string or a display
+    (`for x in 5`, `in None`, `in -1`, `in 10**3`): core.is_blocking evaluates and iterates it"""
     for n in _walk(src):
         it = getattr(n, "iter", None)
-        if isinstance(n, (ast.For, ast.comprehension)) and isinstance(it, ast.Constant) and not isinstance(it.value, (str, bytes)):
+        if not isinstance(n, (ast.For, ast.comprehension)) or it is None:
+            continue
+        parts = list(ast.walk(it))
+        if any(isinstance(m, (ast.Name, ast.Call, ast.Attribute, ast.Subscript, ast.List, ast.Tuple, ast.Set, ast.Dict,
+                              ast.ListComp, ast.SetComp, ast.DictComp, ast.GeneratorExp, ast.JoinedStr)) for m in parts):
+            continue
+        consts = [m for m in parts if isinstance(m, ast.Constant)]
+        if consts and not any(isinstance(m.value, (str, bytes)) for m in consts):
             return True
     return False
 
@@ -148,6 +156,24 @@ def range_step_symbolic(src: str) -> bool:
     return False
 
 
+def _max_depth(src, kinds) -> int:
+    t = _tree(src)
+    if t is None:
+        return 0
+
+    def depth(n):
+        d = max((depth(c) for c in ast.iter_child_nodes(n)), default=0)
+        return d + (1 if isinstance(n, kinds) else 0)
+    try:
+        return depth(t)
+    except RecursionError:
+        return 10 ** 6
+
+
+def nested_import_ifs(src: str) -> bool:
+    return _max_depth(src, (ast.If,)) >= 4 and any(isinstance(n, ast.Import) for n in _walk(src))
+
+
 # sig name -> predicate over the input text
 INPUT_SIGS = {
     "oneline_compound_statement": has_oneline_compound,
@@ -163,6 +189,10 @@ INPUT_SIGS = {
     "multiline_first_statement": multiline_first_statement,
     "alias_chain_longer_than_25": long_alias_chain,
     "range_step_symbolic_bound": range_step_symbolic,
+    "nested_import_ifs_deeper_than_4": nested_import_ifs,
+    "call_nesting_deeper_than_50": lambda s_: _max_depth(s_, (ast.Call,)) > 50,
+    "more_than_125_functions": lambda s_: sum(isinstance(n, ast.FunctionDef) for n in _walk(s_)) > 125,
+    "assignment_chain_longer_than_125": lambda s_: long_alias_chain(s_, 125),
 }
 
 
@@ -173,7 +203,7 @@ def match(findings, site_candidates, source: str):
         if f.kind != "finding":
             continue
         pred = INPUT_SIGS.get(f.fields.get("sig", ""))
-        if pred is None or f.fields.get("site") not in site_candidates:
+        if pred is None or not (set(f.fields.get("site", "").split("|")) & set(site_candidates)):
             continue
         try:
             if pred(source):
